@@ -39,7 +39,13 @@ ANCHORS = ["aiomysensors.transport.mqtt:MQTTTransport.write", "aiomysensors.tran
 
 PREFIXES = [("mygateway1-out", "mygateway1-in"), ("a", "b"), ("a/b", "c/d"), ("a/b/c/d", "e/f/g/h"), ("home/floor1/gw-out", "home/floor1/gw-in"),
             ("1/2", "3/4"), ("gw10/11/0", "gw10/11/1"), ("my gw/out put", "my gw/in put"), ("größe/日本", "größe/入"), ("0", "1"),
-            ("255/3/1", "0/0/0/0/0"), ("x/1/0/1/0/0", "y")]
+            ("255/3/1", "0/0/0/0/0"), ("x/1/0/1/0/0", "y"),
+            # every character that is legal in a topic name is legal in a prefix: empty levels (leading / trailing / double
+            # '/'), formatting punctuation ('%', '{}'), '$', quotes, backslashes, blanks at the ends
+            ("site/gw-out/", "site/gw-in/"), ("/lead-out", "/lead-in"), ("a//b", "c//d"), ("/", "//"),
+            ("home%2Fattic-out", "home%2Fattic-in"), ("tank 50%", "tank 51%"), ("a%%b-out", "a%%b-in"), ("%s/%d", "%(x)s"),
+            ("{}", "{0}/{in_prefix}"), ("{out", "in}"), ("$SYS-like/$out", "$in"), ("back\\slash", "quote'\"in"),
+            (" out ", " in "), ("out\t", "in\n")]
 
 
 def hooked_transport(in_prefix: str, out_prefix: str):
@@ -119,8 +125,13 @@ async def subscription_case(ctx, prefixes: tuple[str, str]) -> None:
 
     in_prefix, out_prefix = prefixes
     case = {"kind": "subscriptions", "prefixes": list(prefixes)}
-    transport = hooked_transport(in_prefix, out_prefix)
-    await transport.connect()
+    try:
+        transport = hooked_transport(in_prefix, out_prefix)
+        await transport.connect()
+    except Exception as exc:  # noqa: BLE001
+        ctx.violation("connect-raises", f"constructing / connecting the transport with prefixes {prefixes!r} raised "
+                                        f"{type(exc).__name__}: {exc!s:.80}", case)
+        return
     ctx.case(("sub", prefixes), sample={**case, "subscribed": transport.subscribed})
     ctx.clause("subscriptions-cover-all-commands")
     if transport.connected != 1:
